@@ -37,8 +37,8 @@ Examples == <<
   [s |-> S("5."), v |-> DX(1, <<5>>, 0)], [s |-> S("+1_000"), v |-> DX(1, <<1,0,0,0>>, 0)], [s |-> S("00.10"), v |-> DX(1, <<1,0>>, 2)],
   [s |-> S("79228162514264337593543950335"), v |-> [k |-> "ok", n |-> Z(1, DecMaxM), sc |-> 0, exact |-> TRUE]],
   [s |-> S("79228162514264337593543950336"), v |-> DInv],
-  [s |-> S("0.00000000000000000000000000005"), v |-> DX(1, <<1>>, 28)],           \* the 29th digit rounds half up
-  [s |-> S("0.00000000000000000000000000004"), v |-> [k |-> "ok", n |-> Z(1, <<>>), sc |-> 28, exact |-> TRUE]],
+  [s |-> S("0.00000000000000000000000000005"), v |-> [DX(1, <<1>>, 28) EXCEPT !.exact = FALSE]],           \* the 29th digit rounds half up
+  [s |-> S("0.00000000000000000000000000004"), v |-> [k |-> "ok", n |-> Z(1, <<>>), sc |-> 28, exact |-> FALSE]],
   [s |-> S("."), v |-> DInv], [s |-> S(""), v |-> DInv], [s |-> S("-"), v |-> DInv], [s |-> S("_1"), v |-> DInv], [s |-> S("1..2"), v |-> DInv],
   [s |-> S("abc"), v |-> DInv], [s |-> S("1 "), v |-> DInv] >>
 ExamplesAgree == (c.stage = 0 /\ c.s = 1 /\ c.i = 1) => \A i \in 1..Len(Examples) : DecFromStr(Examples[i].s) = Examples[i].v
@@ -46,6 +46,6 @@ ExamplesAgree == (c.stage = 0 /\ c.s = 1 /\ c.i = 1) => \A i \in 1..Len(Examples
 TextOK == c.stage = 1 =>
   LET d == DecFromStr(c.text)
       o == Unary("dec", VStr(c.text))
-  IN /\ (d.k = "ok" => DFits(d.n.m) /\ d.sc <= 28 /\ o = Ok(VDec(d.n, d.sc)))
+  IN /\ (d.k = "ok" => DFits(d.n.m) /\ d.sc <= 28 /\ o.ok /\ o.v = VDec(d.n, d.sc) /\ (d.exact <=> "ap" \notin DOMAIN o))
      /\ PrintT("CASE " \o ToJson([k |-> "dec", a |-> <<VStr(c.text)>>, x |-> o]))
 =============================================================================
